@@ -61,8 +61,17 @@ def _font(draw, force_names=None):
                     g["anchors"].append({"name": "exit" + sfx, "x": draw(coord), "y": draw(coord)})
         if r in (5, 6) or "_" in n:
             pre = draw(st.sampled_from(["caret_", "caret_", "vcaret_"]))
+            # any anchor whose name starts with the prefix is a caret: numbered, bare or with a free-form suffix
+            free = draw(st.booleans())
+            sfx_pool = ["", "left", "1a", "1.alt", "top", "_", "10", "-1", "\u00e9"]  # not "0": the mark writer rejects every anchor name ending in _0 ("ligature component indexes must start from 1"), a documented input error
             for i in range(draw(st.integers(1, 3))):
-                g["anchors"].append({"name": "%s%d" % (pre, i + 1), "x": draw(coord), "y": draw(coord)})
+                sfx = draw(st.sampled_from(sfx_pool)) if free else "%d" % (i + 1)
+                if any(a["name"] == pre + sfx for a in g["anchors"]):
+                    continue
+                g["anchors"].append({"name": pre + sfx, "x": draw(coord), "y": draw(coord)})
+            if draw(st.integers(0, 5)) == 0:
+                # look-alikes that are not carets
+                g["anchors"].append({"name": draw(st.sampled_from(["caret", "xcaret_1", "Caret_1", "vcaret"])), "x": draw(coord), "y": draw(coord)})
         glyphs.append(g)
     gn = [g["name"] for g in glyphs]
     spec = {"info": {"unitsPerEm": 1000}, "glyphs": glyphs, "lib": {}}
